@@ -259,6 +259,16 @@ func c12Expr(ctx *core.Ctx, idx int) core.Result {
 			t, e = gen.Str, ast.Binary{Op: "+", L: toa(ast.Binary{Op: "*", L: nm("tnum"), R: il(2)}), R: toa(ast.Binary{Op: "*", L: nm("tnum"), R: ast.FloatLit{V: 2}})}
 		}
 		res.Tag("expr:look-alike-operands")
+	} else if r.Chance(1, 14) {
+		// a negated comparison with an operand that is not a number: !(nan < k) is true, nan >= k is false
+		prelude = append(prelude, ast.Assign{Name: "tnan", Value: ast.Binary{Op: "/", L: ast.FloatLit{V: 0}, R: ast.FloatLit{V: 0}}}, ast.Assign{Name: "tk", Value: ast.FloatLit{V: float64(r.Range(1, 9))}})
+		cmp := []string{"<", ">", "<=", ">=", "=="}[r.Intn(5)]
+		l, rr := nm("tnan"), nm("tk")
+		if r.Bool() {
+			l, rr = rr, l
+		}
+		t, e = gen.Bool, ast.Unary{Op: "!", X: ast.Binary{Op: cmp, L: l, R: rr}}
+		res.Tag("expr:negated-comparison-with-nan")
 	}
 	res.Hash = core.Mix(sessionHash(prelude) ^ core.HashString(ast.Sexp(e)))
 	// the reference answer for the plain expression
@@ -368,6 +378,23 @@ func c12Rewrites(ctx *core.Ctx, idx int) core.Result {
 			wrap(ast.Assign{Name: "vx", Value: init}, ast.Assign{Name: "vx", Value: ast.Binary{Op: "+", L: ast.IntLit{V: 1}, R: x}}, x),
 			wrap(ast.Assign{Name: "vx", Value: init}, ast.Assign{Name: "vt", Value: x}, ast.Assign{Name: "vx", Value: ast.Binary{Op: "+", L: nm("vt"), R: ast.IntLit{V: 1}}}, x),
 			wrap(ast.Assign{Name: "vx", Value: init}, ast.Assign{Name: "vx", Value: ast.Binary{Op: "+", L: ast.Binary{Op: "+", L: x, R: ast.IntLit{V: 0}}, R: ast.IntLit{V: 1}}}, x),
+		}
+		if r.Chance(1, 3) {
+			// the same with the operators that do not commute: x = 1 - x is not x = x - 1
+			op := []string{"-", "/", "%", "<<"}[r.Intn(4)]
+			k := ast.IntLit{V: 1}
+			kind = "decrement-and-mirror"
+			variants = [][]ast.Node{
+				wrap(ast.Assign{Name: "vx", Value: init}, ast.Assign{Name: "vx", Value: ast.Binary{Op: op, L: k, R: x}}, x),
+				wrap(ast.Assign{Name: "vx", Value: init}, ast.Assign{Name: "vt", Value: x}, ast.Assign{Name: "vx", Value: ast.Binary{Op: op, L: k, R: nm("vt")}}, x),
+				wrap(ast.Assign{Name: "vx", Value: init}, ast.Assign{Name: "vy", Value: ast.Binary{Op: op, L: k, R: x}}, ast.Assign{Name: "vx", Value: nm("vy")}, x),
+			}
+			if r.Bool() {
+				variants = [][]ast.Node{
+					wrap(ast.Assign{Name: "vx", Value: init}, ast.Assign{Name: "vx", Value: ast.Binary{Op: op, L: x, R: k}}, x),
+					wrap(ast.Assign{Name: "vx", Value: init}, ast.Assign{Name: "vt", Value: x}, ast.Assign{Name: "vx", Value: ast.Binary{Op: op, L: nm("vt"), R: k}}, x),
+				}
+			}
 		}
 	case 1: // e op e / t = e ; t op t   (e pure: no calls)
 		kind = "common-subexpression"
@@ -560,7 +587,7 @@ func init() {
 			{Name: "rewrite", Count: countFn(4000, 100000), Run: c12Rewrites},
 			{Name: "cond", Count: func(string) int { return 13 * 5 * 8 * 3 }, Run: c12Cond},
 		},
-		Floors: []core.Floor{{Key: "placements_run", Quick: 60000, Thor: 3000000}, {Key: "tag:placement:", Quick: 30, Thor: 30}, {Key: "tag:rewrite:", Quick: 5, Thor: 5}, {Key: "tag:cond:", Quick: 20, Thor: 20}, {Key: "nontrivial", Quick: 3000, Thor: 120000}},
+		Floors: []core.Floor{{Key: "placements_run", Quick: 60000, Thor: 3000000}, {Key: "tag:placement:", Quick: 30, Thor: 30}, {Key: "tag:rewrite:", Quick: 6, Thor: 6}, {Key: "tag:cond:", Quick: 20, Thor: 20}, {Key: "nontrivial", Quick: 3000, Thor: 120000}},
 	})
 	core.CaseSeconds["C12/expr"] = 0.5
 }
